@@ -308,11 +308,8 @@ where
             classes.reverse();
         }
 
-        let indices = map_prediction_to_idx(
-            targets.as_slice().unwrap(),
-            ground_truth.as_slice().unwrap(),
-            &classes,
-        );
+        // copy the labels, the views are not necessarily contiguous
+        let indices = map_prediction_to_idx(&targets.to_vec(), &ground_truth.to_vec(), &classes);
 
         // count each index tuple in the confusion matrix
         let mut confusion_matrix = Array2::zeros((classes.len(), classes.len()));
@@ -505,7 +502,8 @@ impl BinaryClassification<&[bool]> for &[Pr] {
 
 impl<D: Data<Elem = Pr>> BinaryClassification<&[bool]> for ArrayBase<D, Ix1> {
     fn roc(&self, y: &[bool]) -> Result<ReceiverOperatingCharacteristic> {
-        self.as_slice().unwrap().roc(y)
+        // copy the probabilities, the view is not necessarily contiguous
+        self.to_vec().as_slice().roc(y)
     }
 
     fn log_loss(&self, y: &[bool]) -> Result<f32> {
@@ -533,21 +531,19 @@ impl<R: Records, R2: Records, T: AsSingleTargets<Elem = bool>, T2: AsSingleTarge
     BinaryClassification<&DatasetBase<R, T>> for DatasetBase<R2, T2>
 {
     fn roc(&self, y: &DatasetBase<R, T>) -> Result<ReceiverOperatingCharacteristic> {
-        let targets = self.as_targets();
-        let targets = targets.as_slice().unwrap();
-        let y_targets = y.as_targets();
-        let y_targets = y_targets.as_slice().unwrap();
+        // copy the targets, the views are not necessarily contiguous
+        let targets = self.as_targets().to_vec();
+        let y_targets = y.as_targets().to_vec();
 
-        targets.roc(y_targets)
+        targets.as_slice().roc(&y_targets)
     }
 
     /// Log loss of the probabilities of the binary target
     fn log_loss(&self, y: &DatasetBase<R, T>) -> Result<f32> {
         let probabilities = self.as_single_targets();
-        let y_targets = y.as_targets();
-        let y_targets = y_targets.as_slice().unwrap();
+        let y_targets = y.as_targets().to_vec();
 
-        probabilities.log_loss(y_targets)
+        probabilities.log_loss(&y_targets)
     }
 }
 
